@@ -473,13 +473,24 @@ def scenario_pool_rerun(cx, rng, ndisks=2, share=None):
         for k, nm in enumerate([b'a\nb', b'only/in\\dir/x:y', b'keep/k%d' % di, b'sp ace%d' % di]):
             tree.write(di, nm if di == 0 or k >= 2 else nm + b'%d' % (di + 1), bytes([65 + k]) * (500 * (k + 1)), (now + k) * 10 ** 9 + 5 + di)
     tree.symlink(0, b'keep/l\nnk', b'a\nb')
+    moved_ns = (now + 9) * 10 ** 9 + 123
+    tree.write(0, b'keep/moved:m', b'M' * 1700, moved_ns)
     rc, out, logb, err = tool(cx.exe, tree, ['sync'])
     walked = [(n, ) + walk_disk(d) for n, d in tree.disks]
     pb = os.fsencode(tree.pool)
     os.makedirs(os.path.join(pb, b'only/in\\dir'))
     open(os.path.join(pb, b'only/in\\dir/notes'), 'wb').write(b'foreign')
+    # a pre-existing link at the path of a recorded file, with the file's time stamp but another target
+    wl = os.path.join(pb, b'sp ace0')
+    os.symlink(b'/somewhere/else', wl)
+    st0 = os.lstat(tree.path(0, b'sp ace0'))
+    os.utime(wl, ns=(st0.st_mtime_ns, st0.st_mtime_ns), follow_symlinks=False)
     verify_pool(cx, tree, 'first', walked, [b'only/in\\dir/notes'], share)
     os.remove(os.path.join(pb, b'only/in\\dir/notes'))
+    # rebalancing: the file goes to another data disk, same relative path, same time stamp
+    os.makedirs(os.path.dirname(tree.path(ndisks - 1, b'keep/moved:m')), exist_ok=True)
+    os.rename(tree.path(0, b'keep/moved:m'), tree.path(ndisks - 1, b'keep/moved:m'))
+    assert os.lstat(tree.path(ndisks - 1, b'keep/moved:m')).st_mtime_ns == moved_ns
     shutil.rmtree(tree.path(0, b'only'))
     os.remove(tree.path(0, b'keep/l\nnk'))
     p = tree.path(ndisks - 1, b'keep/k%d' % (ndisks - 1))
@@ -491,6 +502,51 @@ def scenario_pool_rerun(cx, rng, ndisks=2, share=None):
         return
     walked = verify_list(cx, tree, 'list_after_delete')
     verify_pool(cx, tree, 'rerun', walked, [], share)
+    # the share prefix changes between two pool runs: every link must follow
+    share2 = '/other/prefix' if share else '/srv/new share'
+    tree.write_conf(share2)
+    verify_pool(cx, tree, 'reshare', walked, [], share2)
+    tree.write_conf(share)
+    verify_pool(cx, tree, 'unshare', walked, [], share)
+
+
+def scenario_pool_stale_dir(cx):
+    """a recorded file `a` is replaced by a directory a/ holding b; the pool still has the link `a` of the previous run"""
+    root = mkscratch('c20s.')
+    tree = Tree(root, 1)
+    now = 1600000000
+    tree.write(0, b'a', b'A' * 600, now * 10 ** 9 + 11)
+    tree.write(0, b'c', b'C' * 600, now * 10 ** 9 + 12)
+    rc, out, logb, err = tool(cx.exe, tree, ['sync'])
+    walked = [(n, ) + walk_disk(d) for n, d in tree.disks]
+    verify_pool(cx, tree, 'stale_first', walked, [])
+    os.remove(tree.path(0, b'a'))
+    tree.write(0, b'a/b', b'B' * 700, (now + 5) * 10 ** 9 + 13)
+    rc, out, logb, err = tool(cx.exe, tree, ['sync'])
+    if rc != 0:
+        cx.bad('stale_sync', 'sync after replacing a file by a directory exits %d' % rc, {'stderr': err[-800:].decode('latin1')})
+        return
+    walked = [(n, ) + walk_disk(d) for n, d in tree.disks]
+    before = os.lstat(tree.path(0, b'a/b'))
+    rc, out, logb, err = tool(cx.exe, tree, ['pool'], 'pool.log')
+    after = os.lstat(tree.path(0, b'a/b'))
+    links, regs, dirs = pool_walk(tree.pool)
+    cx.evals += 2
+    cx.kinds.add('pool_stale_dir')
+    target = os.fsencode(tree.disks[0][1]) + b'/a/b'
+    touched = before.st_ctime_ns != after.st_ctime_ns
+    if links.get(b'a/b', (None,))[0] != target or touched:
+        what = ('pool after a recorded file `a` became the directory a/ (holding b): the stale pool link `a` of the previous run is followed into the data disk; '
+                'afterwards %s, %s (stderr: %s); a further pool run repairs it'
+                % ('there is no link for a/b (pool holds %r)' % sorted(links) if b'a/b' not in links else 'a/b -> %r' % links[b'a/b'][0],
+                   'lmtime() was applied to the data file itself (ctime changed)' if touched else 'the data file was not touched',
+                   err.decode('latin1').strip()[-120:]))
+        cx.chk.violation('pool_stale_dir', what,
+                         {'scenario': 'pool_stale_dir', 'steps': ['d1/a (600 bytes), d1/c', 'sync', 'pool', 'rm d1/a; mkdir d1/a; write d1/a/b', 'sync', 'pool'],
+                          'pool_links_after': {k.decode('latin1'): v[0].decode('latin1') for k, v in links.items()}, 'data_file_ctime_changed': touched,
+                          'stderr': err.decode('latin1')[-400:]}, finding_key='F-C20-pool-stale-link-followed')
+    # whatever the second run did, a third one must reach the exact pool
+    verify_pool(cx, tree, 'stale_third', walked, [])
 
 
 def zerosub_expected(walked):
@@ -654,7 +710,7 @@ def main(tier, replay=None):
     n_unit, bails, drift = unit_correspondence(chk, drv, model, tier)
     rng = chk.rng
     cxs = []
-    plans = [('main', lambda cx: scenario_main(cx, rng, 3, True, 25)), ('pool', lambda cx: scenario_pool_rerun(cx, rng)), ('zerosub', scenario_zerosub)]
+    plans = [('main', lambda cx: scenario_main(cx, rng, 3, True, 25)), ('pool', lambda cx: scenario_pool_rerun(cx, rng)), ('zerosub', scenario_zerosub), ('stale', scenario_pool_stale_dir)]
     if tier == 'thorough':
         plans += [('main%d' % i, (lambda cx, i=i: scenario_main(cx, rng, 2 + i % 4, i % 2 == 0, 60))) for i in range(1, 7)]
         plans += [('poolshare', lambda cx: scenario_pool_rerun(cx, rng, 3, share='/share/root'))]
